@@ -33,7 +33,7 @@ LEVEL_NOTE = (
     "composing family templates), the lossy exclusions. Trusted base as for C02/C03."
 )
 ASSUMPTIONS = ["T-PACK and T-UNPACK of mashverif/core/oracle.py are mutual inverses (documented pairs)",
-               "helper type predicates behave as the stdlib-only model"]
+               "helper type predicates behave as the stdlib-only model on types outside the probe set of R02.8"]
 
 
 def result_class(canon: str) -> Optional[str]:
@@ -356,3 +356,20 @@ def run(repo, rep, tier):  # noqa: F811 -- round-6 remedies (core/round6.py)
 _ADDR6C = '  Borrowed: R13.12, R03.8, R08.9, R08.10, R05.15.'
 EXPLANATION += _ADDR6C
 LEVEL_TEXT += _ADDR6C
+
+
+_run_before_r7tp = run
+
+
+def run(repo, rep, tier):  # noqa: F811 -- round 7: type-level helper contracts borrowed from C02
+    _run_before_r7tp(repo, rep, tier)
+    if getattr(rep, "borrowed", False):
+        return
+    from ..core import typepreds as _tp7
+    _tp7.model_agreement(repo, rep, "R02.8", tier)
+    _tp7.reference_cases(repo, rep, "R02.9")
+
+
+_ADDR7TP = " Borrowed: R02.8 / R02.9 (the type predicates and type-level helpers, interpreted from their own source over the catalogue types and a reference table, answer as the dispatch model and the documentation say)."
+EXPLANATION += _ADDR7TP
+LEVEL_TEXT += _ADDR7TP
